@@ -324,6 +324,27 @@ def nums_of(s):
     return out
 
 
+def precision_problem(r, T):
+    """The numbers of a composite form must be printed by PhQ::Print<T> from values that never passed through a narrower type."""
+    from ..models import narrowing_casts
+    probs = []
+
+    def rec(s_):
+        if isinstance(s_, ev.Str):
+            for p in s_.parts:
+                if isinstance(p, tuple) and p and p[0] == "num":
+                    pt = p[2] if len(p) > 2 else T
+                    if pt != T:
+                        probs.append("a component is printed by PhQ::Print<%s> instead of PhQ::Print<%s>: it gets %s's number of digits, not %s's" % (pt, T, pt, T))
+                    nar = narrowing_casts(p[1], T)
+                    if nar:
+                        probs.append("a component passes through %s before it is printed (%s)" % (nar[0][0], ev.show(nar[0][1])[:80]))
+                elif isinstance(p, ev.Str):
+                    rec(p)
+    rec(r)
+    return probs[0] if probs else None
+
+
 def check_format(kind, text, names, unit_abbr):
     """text: the template with numbers replaced by 0. names: component labels (None for scalars)."""
     if kind == "JSON":
@@ -404,7 +425,7 @@ def run(chk):
         check_parse_number(chk, F, T)
         TT = tables.Tables(F)
         inv = quant.inventory(F)
-        print_hook = lambda E_, fn, this_lv, args: ev.Str([("num", E_.rv(args[0]))])
+        print_hook = lambda E_, fn, this_lv, args: ev.Str([("num", E_.rv(args[0]), strip_cvref(E_.F.T(fn["params"][0]["t"])))])
         for name, q in sorted(inv.items()):
             if q.kind == "base":
                 continue
@@ -435,6 +456,10 @@ def run(chk):
                     ns = nums_of(r)
                     if ns != slots:
                         chk.violated("R2", inst, "prints %s, expected the stored components in declared order" % [ev.show(x)[:40] for x in ns][:9], short(f["loc"]))
+                        continue
+                    pp = precision_problem(r, T)
+                    if pp:
+                        chk.violated("R2", inst, pp, short(f["loc"]))
                         continue
                     text = render(r)
                     if "\x00" in text:
@@ -469,6 +494,10 @@ def run(chk):
                             r = E.rv(res)
                             if len(nums_of(r)) != len(slots):
                                 chk.violated("R2", inst, "prints %d numbers for %d components" % (len(nums_of(r)), len(slots)), short(f["loc"]))
+                                continue
+                            pp = precision_problem(r, T)
+                            if pp:
+                                chk.violated("R2", inst, pp, short(f["loc"]))
                                 continue
                             text = render(r)
                             why = check_format(kind, text, names, xabbr) if "\x00" not in text else "template contains a non-number hole"
